@@ -73,8 +73,17 @@ def run_opensmt(text, io="file", timeout=20, binary=None, chunks=None, env=None,
     errs = err.decode("utf-8", "replace")
     san = ("ERROR: AddressSanitizer" in errs or "runtime error:" in errs or "ThreadSanitizer" in errs
            or rc in (97, 98))
+    site = ""
+    if san or (rc is not None and rc < 0) or "terminate called" in errs:
+        m = re.search(r"#\d+ 0x[0-9a-f]+ in (opensmt::[A-Za-z0-9_:<>~]+)", errs)
+        if m:
+            site = m.group(1)
+        else:
+            m = re.search(r"terminate called after throwing an instance of '([^']+)'", errs)
+            site = m.group(1) if m else ""
+        site = re.sub(r"<.*", "", site)[:80]
     return {"out": outs, "err": errs, "status": rc if rc is not None and rc >= 0 else 128 + sig,
-            "sig": sig, "to": to, "san": san, "wall": time.time() - t0}
+            "sig": sig, "to": to, "san": san, "site": site, "wall": time.time() - t0}
 
 MARK = re.compile(r"^@@(\d+)$")
 
@@ -441,7 +450,7 @@ class Family:
             evs.append({"e": "Cmd", "c": "bad", "r": "error" if diag else "ok", "ci": 0, "must": "reject", "i": 1, "hasNamed": False})
             evs.append({"e": "Exit", "status": res["status"], "sig": res["sig"], "san": bool(res["san"]), "to": bool(res["to"]),
                         "pending": bool(run.get("has_check", False)), "outh": outhash(out), "nerr": 1 if diag else 0,
-                        "synerr": True, "det": False})
+                        "synerr": True, "det": False, "site": res.get("site", "")})
             return evs
         mir = Mirror()
         sig = Signature()
@@ -489,8 +498,9 @@ class Family:
             if r != "error" and c == "declare-sort":
                 sig.sorts.add(cmd["nm"])
         evs.append({"e": "Exit", "status": res["status"], "sig": res["sig"], "san": bool(res["san"]), "to": bool(res["to"]),
-                    "pending": pending_check, "outh": outhash(strip_markers(res["out"])), "nerr": nerr,
-                    "synerr": synerr or ("syntax error" in tail), "det": bool(run.get("det", True))})
+                    "pending": pending_check, "outh": outhash(strip_markers(res["out"])),
+                    "nerr": nerr + (1 if ("syntax error" in res["out"] or "Syntax error" in res["out"]) else 0),
+                    "synerr": synerr or ("syntax error" in tail), "det": bool(run.get("det", True)), "site": res.get("site", "")})
         return evs
 
     def _cmd_ev(self, cmd, r, k):
